@@ -1085,6 +1085,17 @@ pub fn entry_counts_from_group<'a, 'b: 'a>(
   cddl: &'a CDDL,
   group: &'b Group<'a>,
 ) -> Vec<EntryCount> {
+  entry_counts_from_open_group(cddl, group, &mut Vec::new())
+}
+
+/// `open` holds the names of the group rules being counted: a group that is
+/// named again inside its own expansion counts for nothing, so cyclic group
+/// references (`g = (a: 1, h)`, `h = (b: 2, g)`) terminate.
+fn entry_counts_from_open_group<'a, 'b: 'a>(
+  cddl: &'a CDDL,
+  group: &'b Group<'a>,
+  open: &mut Vec<String>,
+) -> Vec<EntryCount> {
   // Each EntryCount is associated with a group choice in the given group
   let mut entry_counts = Vec::new();
 
@@ -1113,7 +1124,7 @@ pub fn entry_counts_from_group<'a, 'b: 'a>(
 
           // For inline groups with multiple choices, we need to add the current count
           // to each of the nested entry counts, not replace the entire list
-          let nested_entry_counts = entry_counts_from_group(cddl, group);
+          let nested_entry_counts = entry_counts_from_open_group(cddl, group, open);
           if group.group_choices.len() > 1 {
             // Add current accumulated count to each nested choice count
             for nested_ec in nested_entry_counts {
@@ -1141,27 +1152,42 @@ pub fn entry_counts_from_group<'a, 'b: 'a>(
             }
           }
 
+          if open.iter().any(|name| name == ge.name.ident) {
+            continue;
+          }
+          open.push(ge.name.ident.to_string());
+
           if let Some(gr) = group_rule_from_ident(cddl, &ge.name) {
             if let GroupEntry::InlineGroup { group, .. } = &gr.entry {
               if group.group_choices.len() == 1 {
-                count += if let Some(ec) = entry_counts_from_group(cddl, group).first() {
+                count += if let Some(ec) = entry_counts_from_open_group(cddl, group, open).first() {
                   ec.count
                 } else {
                   0
                 };
               } else {
-                entry_counts.append(&mut entry_counts_from_group(cddl, group));
+                entry_counts.append(&mut entry_counts_from_open_group(cddl, group, open));
               }
             } else {
-              entry_counts.append(&mut entry_counts_from_group(cddl, &gr.entry.clone().into()));
+              entry_counts.append(&mut entry_counts_from_open_group(
+                cddl,
+                &gr.entry.clone().into(),
+                open,
+              ));
             }
           } else if group_choice_alternates_from_ident(cddl, &ge.name).is_empty() {
             count += 1;
           } else {
             for ge in group_choice_alternates_from_ident(cddl, &ge.name).into_iter() {
-              entry_counts.append(&mut entry_counts_from_group(cddl, &ge.clone().into()));
+              entry_counts.append(&mut entry_counts_from_open_group(
+                cddl,
+                &ge.clone().into(),
+                open,
+              ));
             }
           }
+
+          open.pop();
         }
       }
     }
